@@ -79,7 +79,13 @@ impl Ctx {
     }
     pub fn sample<T: Serialize>(&mut self, v: &T) {
         if self.counting && self.samples.len() < 2 {
-            self.samples.push(serde_json::to_value(v).unwrap_or(Value::Null));
+            let s = serde_json::to_string(v).unwrap_or_default();
+            if s.len() <= 6000 {
+                self.samples.push(serde_json::to_value(v).unwrap_or(Value::Null));
+            } else {
+                let cut = (0..=3000).rev().find(|i| s.is_char_boundary(*i)).unwrap_or(0);
+                self.samples.push(Value::String(format!("{} ...[{} bytes of JSON truncated]", &s[..cut], s.len() - cut)));
+            }
         }
     }
     fn merge(&mut self, o: Ctx) {
@@ -277,6 +283,30 @@ impl Engine {
             self.parts.push(PartReport { name: part.into(), ctx, rule: rule.into(), exhaustive: false });
             return;
         }
+        // regression tier: saved failing cases of this part are re-run first, bypassing proptest
+        let mut reg_ctx = Ctx { counting: true, tier_thorough: thorough, ..Default::default() };
+        let mut reg_fails = vec![];
+        if let Ok(rd) = std::fs::read_dir(format!("{}/regressions/{}", self.verif_root, self.id)) {
+            let mut files: Vec<_> = rd.filter_map(|e| e.ok()).map(|e| e.path()).filter(|p| p.file_name().and_then(|n| n.to_str()).map(|n| n.starts_with(&format!("{part}-")) && n.ends_with(".json")).unwrap_or(false)).collect();
+            files.sort();
+            for pth in files {
+                let Ok(txt) = std::fs::read_to_string(&pth) else { continue };
+                let Ok(v) = serde_json::from_str::<Value>(&txt) else { continue };
+                let Ok(case) = serde_json::from_value::<C>(v["case"].clone()) else { continue };
+                reg_ctx.evals += 1;
+                reg_ctx.class("regression_case");
+                match guarded(|| f(&case, &mut reg_ctx)) {
+                    Ok(()) => {}
+                    Err(fl) if self.is_known(&fl.sig) => self.note_known(&fl.sig),
+                    Err(fl) => reg_fails.push((pth.display().to_string(), fl)),
+                }
+            }
+        }
+        for (pth, fl) in reg_fails {
+            println!("VIOLATION property={} replay={}", self.id, pth);
+            println!("  part={} signature={} (regression case) :: {}", part, fl.sig, fl.msg.replace('\n', " "));
+            self.violations.push((pth, format!("{}: {}", fl.sig, fl.msg)));
+        }
         let workers = self.workers.max(1).min(cases.max(1) as usize);
         let stop = AtomicBool::new(false);
         let results: Mutex<Vec<(Ctx, Option<(Value, Fail)>)>> = Mutex::new(vec![]);
@@ -355,6 +385,7 @@ impl Engine {
             }
         });
         let mut total = Ctx { counting: true, ..Default::default() };
+        total.merge(reg_ctx);
         let mut fails = vec![];
         for (c, fl) in results.into_inner().unwrap() {
             total.merge(c);
